@@ -49,6 +49,15 @@ def gen_case(seed, tier):
         victim.update({'files': fs, 'at': 10**6, 'mt': 1_700_000_000, 'note': None})
     elif kind == 'delete':
         victim['pick'] = [rng.randrange(8) for _ in range(rng.choice([1, 2]))]
+        if rng.random() < 0.6:
+            # one delete naming two snapshots of the caller that share chunks nobody else references
+            shared = history.gen_fileset(rng, paths, len(pre['contents']), None)
+            for j in range(2):
+                f2 = dict(shared)
+                if rng.random() < 0.5:
+                    f2[rng.choice(paths)] = rng.randrange(len(pre['contents']))
+                pre['ops'].append({'op': 'snapshot', 'u': victim['u'], 'files': f2, 'at': 10**6 - 10 + j, 'mt': 1_650_000_000 + j, 'note': None})
+            victim['pick'] = [-1, -2]
     else:
         # clean is only interesting with orphans around: an interrupted snapshot first
         pre['ops'].append({'op': 'snapshot', 'u': victim['u'], 'files': fs, 'at': 10**6 - 1, 'mt': 1_600_000_000, 'note': None,
